@@ -56,19 +56,20 @@ package entrypoint
 //   (3) the fee payments of the payload's actions, in order, and
 //   (4) the outgoing route taking the remaining amount out of the orbiter account (burn / lock / credit);
 //   the remaining amount is positive and is exactly what the orbiter holds when the route is entered.
-//   The clauses after the first spell out what the statement lists: supply changes only by the CCTP
+//   The clauses after the closed form spell out, for that closed form, what the statement lists: supply changes only by the CCTP
 //   burn; balances in other denominations do not change; accounts other than the escrow, the orbiter,
 //   the dust collector, the fee recipients and the route's sink do not change.
 //@   ensures[C02] ackSuccess(ack) && forOrb(packet) ==> theOp() != nil && theOp().Payload != nil && payloadOK(theOp().Payload)
 //@   ensures[C02] ackSuccess(ack) && forOrb(packet) ==> plN(theOp().Payload) <= 2 && actsOKN(pktAmount(packet), theOp().Payload.PreActions, plN(theOp().Payload)) && fwdAttrKnown(plAttr(theOp().Payload)) && plOut(pktAmount(packet), theOp().Payload) > 0
 //@   ensures[C02] ackSuccess(ack) && forOrb(packet) ==> wrapped_bank0 == sweepLedger(old(bank), pktDenom(packet)) && wrapped_bank == creditLedger(sweepLedger(old(bank), pktDenom(packet)), packet)
 //@   ensures[C02] ackSuccess(ack) && forOrb(packet) ==> bank == xferLedger(packet, theOp().Payload)
-//@   ensures[C02] ackSuccess(ack) && forOrb(packet) ==> forall d string :: supply(bank, d) == supply(old(bank), d) - ite(isCCTPAttr(plAttr(theOp().Payload)) && d == pktDenom(packet), plOut(pktAmount(packet), theOp().Payload), 0)
-//@   ensures[C02] ackSuccess(ack) && forOrb(packet) ==> forall x Addr, d string :: d != pktDenom(packet) ==> bal(bank, x, d) == bal(old(bank), x, d)
+//@   ensures[C02] ackSuccess(ack) && forOrb(packet) ==> bal(actsStepN(creditLedger(sweepLedger(old(bank), pktDenom(packet)), packet), pktAmount(packet), pktDenom(packet), theOp().Payload.PreActions, plN(theOp().Payload)), core.ModuleAddress, pktDenom(packet)) == plOut(pktAmount(packet), theOp().Payload)
+//@   ensures[C02] ackSuccess(ack) && forOrb(packet) ==> forall d string :: supply(xferLedger(packet, theOp().Payload), d) == supply(old(bank), d) - ite(isCCTPAttr(plAttr(theOp().Payload)) && d == pktDenom(packet), plOut(pktAmount(packet), theOp().Payload), 0)
+//@   ensures[C02] ackSuccess(ack) && forOrb(packet) ==> forall x Addr, d string :: d != pktDenom(packet) ==> bal(xferLedger(packet, theOp().Payload), x, d) == bal(old(bank), x, d)
 //@   ensures[C02] ackSuccess(ack) && forOrb(packet) ==> forall x Addr :: x != escrowAddr(packet.DestinationPort, packet.DestinationChannel) && x != core.ModuleAddress && x != dustAddr() &&
 //@                  !feeRcpt2(x, theOp().Payload) && !(isHypAttr(plAttr(theOp().Payload)) && x == warpAccount(hexstr(toarray32(cast(plAttr(theOp().Payload), "*types/controller/forwarding.HypAttributes").TokenId)))) &&
 //@                  !(isIntAttr(plAttr(theOp().Payload)) && x == decodeAddr(cast(plAttr(theOp().Payload), "*types/controller/forwarding.InternalAttributes").Recipient)) ==>
-//@                  bal(bank, x, pktDenom(packet)) == bal(old(bank), x, pktDenom(packet))
+//@                  bal(xferLedger(packet, theOp().Payload), x, pktDenom(packet)) == bal(old(bank), x, pktDenom(packet))
 //
 //   C14: the receive path returns an acknowledgement for every input (the safety obligations - nil
 //   dereference, bounds, conversions, type assertions, explicit panics, panicking library calls - are
